@@ -156,12 +156,12 @@ def run(ctx):
                 what = "stored zero" if code == -2 else "entry (%d,%d)" % divmod(code, cs["n"])
                 ctx.diff(cs, what)
     # public API: fit(...).graph_ on dense / sparse / precomputed inputs with several metrics
-    api_cases = 12 if ctx.tier == "quick" else 80
+    api_cases = 15 if ctx.tier == "quick" else 80
     for c in range(api_cases):
         n = rng.randint(12, 40); k = rng.randint(2, 10); dim = rng.randint(2, 6)
         X = npr.normal(size=(n, dim)) * 10 ** rng.uniform(-1, 2)
         r = rng.choice([0.0, 0.3, 1.0]); lc = rng.choice([1, 1, 2])
-        kind = ["dense", "sparse", "precomputed", "precomputed_sparse"][c % 4]
+        kind = ["dense", "sparse", "precomputed", "precomputed_sparse", "knn_tables"][c % 5]
         metric = rng.choice(["euclidean", "manhattan", "cosine", "chebyshev"])
         data = X
         if kind == "sparse":
@@ -170,10 +170,23 @@ def run(ctx):
             data = np.sqrt(((X[:, None] - X[None]) ** 2).sum(-1)); metric = "precomputed"
         if kind == "precomputed_sparse":      # scipy-sparse symmetric distance matrix (zero diagonal not stored): its own branch of fit
             data = sp.csr_matrix(data.astype(np.float32)); r = rng.choice([0.0, 0.5, 1.0]); lc = rng.choice([1, 2, 0.5]) if k > 3 else 1
+        extra = {}
+        if kind == "knn_tables":
+            # user-supplied exact kNN tables (self in column 0) with exactly k or MORE than k columns: the graph lives on the k-neighbourhoods
+            metric = "euclidean"; n = max(n, k + 8)
+            if X.shape[0] < n: X = npr.normal(size=(n, dim)) * 10 ** rng.uniform(-1, 2)
+            data = X.astype(np.float32)
+            Dk = np.sqrt(((data.astype(np.float64)[:, None] - data.astype(np.float64)[None]) ** 2).sum(-1))
+            width = [k + 3, min(2 * k, n), k + 1, k][(c // 5) % 4]
+            order = np.argsort(Dk, axis=1, kind="stable")[:, :width]
+            for i in range(n):      # the sample itself first
+                if order[i, 0] != i: order[i] = [i] + [j for j in order[i].tolist() if j != i][: width - 1]
+            extra["precomputed_knn"] = (order.astype(np.int64), np.take_along_axis(Dk, order, axis=1).astype(np.float32))
         desc = dict(api="UMAP.fit", n=n, k=k, r=r, lc=lc, kind=kind, metric=metric, X=X)
+        if extra: desc["precomputed_knn_columns"] = int(extra["precomputed_knn"][0].shape[1])
         try:
             m = umap.UMAP(n_neighbors=k, set_op_mix_ratio=r, local_connectivity=lc, metric=metric, n_epochs=0,
-                          random_state=1, init="random").fit(data)
+                          random_state=1, init="random", **extra).fit(data)
         except Exception as e:
             ctx.fail("UMAP.fit:raises", "%s: %s" % (type(e).__name__, e), desc); continue
         # independent float64 distances; neighbour relation "within the k smallest of the row (ties allowed)"
